@@ -107,6 +107,12 @@ CHECKS["C04"] = dict(
    text="All fingerprint lists of length <= 2 (quick) / 3 (thorough) over a 24-entry alphabet derived from the peer's real certificate (three supported hashes x correct in three casings / wrong first or last digit / truncated, algorithm-name casing, unsupported algorithms) decide connected vs failed against the property's sentence, with a failed side handed nothing and refusing to send; every ordered SRTP profile list on each side x both role assignments connects iff the lists intersect and a battery of RTP/RTCP/data messages arrives intact both ways; every single-bit flip of every protected battery datagram is discarded without taking the transport down.",
    note="Fault-free handshakes only (OpenSSL's DTLS timer reads the wall clock); ICE replaced by in-memory queues; payload values limited to the battery.",
    design="2/C04")
+CHECKS["C11"] = dict(
+   level="model_checking",
+   technique="stateless deviation-bounded model checking of a real RTCRtpSender -> RTCDtlsTransport router -> RTCRtpReceiver pipeline on the virtual-time loop with a harness-owned network in both directions; safety oracle at every point, recovery oracle at the terminal point",
+   text="16 scenarios (VP8 / H.264 x RTX negotiated or not x first sequence number and timestamp origin small or just before the wrap; frames of 1-8 packets, the 15-bit VP8 picture id wrapping inside the run) x all executions with <= k deviations (quick 1-2, thorough 2-3): drop / duplicate / reorder on the media and the feedback path, frame or timer first. Safety at every point: every buffer handed to the decoder is byte-identical to a sent frame (a tail only first or after a PLI), in sending order with consistent mapped timestamps, NACK <= 128 numbers, no task dies. Recovery (faults on first transmissions only, feedback and retransmissions get through, three more frames follow): every lost packet is NACKed and resent (as RTX iff negotiated), every frame reaches the decoder exactly once.",
+   note="SRTP replaced by identity sessions; decoder thread replaced by a no-op and tapped at the decoder queue; packets sent before the first one the receiver ever sees are exempt (no gap is visible for them).",
+   design="2/C11")
 NOT_YET = {}
 
 def main():
